@@ -174,6 +174,64 @@ pub fn gen_graph(rng: &mut SplitMix, thorough: bool) -> GraphSpec {
         }
         return g;
     }
+    if rng.chance(1, 15) {
+        // many vertices in many small components (cheap for the builder: the search
+        // depth stays 1-2): 8-20 distinct labels, disjoint edges / short paths plus
+        // self-loops, externals on few vertices
+        let ne_max = if thorough { 11 } else { 9 };
+        let nv = rng.range(8, 20) as usize;
+        let mut labels: Vec<u8> = if rng.chance(1, 2) {
+            (0..nv as u8).collect()
+        } else {
+            let mut l: Vec<u8> = Vec::new();
+            while l.len() < nv {
+                let x = rng.below(256) as u8;
+                if !l.contains(&x) {
+                    l.push(x);
+                }
+            }
+            l
+        };
+        let sorted = {
+            let mut s2 = labels.clone();
+            s2.sort_unstable();
+            s2
+        };
+        rng.shuffle(&mut labels);
+        let d = rng.range(1, 6) as usize;
+        let mut es: Vec<EdgeSpec> = Vec::new();
+        let nself = rng.range(1, 2) as usize;
+        for k in 0..nself {
+            // a self-loop, often on the largest or smallest label
+            let v = match rng.below(3) {
+                0 => *sorted.last().unwrap(),
+                1 => sorted[0],
+                _ => labels[k],
+            };
+            let w = d as f64 / 2.0 + *rng.pick(&[0.5, 1.0, -0.25, 0.125]);
+            es.push(EdgeSpec { v: (v, v), massive: rng.chance(1, 3), w: w.max(0.05).to_bits() });
+        }
+        let mut i = 0;
+        while es.len() < ne_max && i + 1 < labels.len() {
+            let (a, b) = (labels[i], labels[i + 1]);
+            es.push(EdgeSpec { v: (a, b), massive: rng.chance(1, 3), w: rng.pick(&[1.0f64, 0.5, 2.0, 0.75]).to_bits() });
+            // sometimes continue the path, otherwise start a new component
+            i += if rng.chance(1, 3) { 1 } else { 2 };
+        }
+        let mut ext: Vec<u8> = Vec::new();
+        match rng.below(4) {
+            0 => ext.push(*sorted.last().unwrap()),
+            1 => ext.push(es[0].v.0),
+            2 => {
+                for e in es.iter().take(2) {
+                    ext.push(e.v.0);
+                }
+            }
+            _ => {}
+        }
+        let sig = workload::cycle_basis(&es, rng);
+        return GraphSpec { d, edges: es, externals: ext, signature: sig, name: String::new() };
+    }
     loop {
         // mostly small graphs; one run in eight a larger one (cheap as long as there
         // are few vertices: the builder's cost explodes with BFS depth, not with E)
